@@ -305,6 +305,8 @@ var evInterestingContentKeys = []string{
 	"aliases", "history_visibility", "redacts", "body", "msgtype", "displayname", "m.federate", "additional_creators",
 	// names that only LOOK like keep-list entries (dotted paths, prefixes, different case)
 	"third_party_invite.signed", "membership.x", "users.@alice:a.example", "content.membership", "Membership", "join_rule ", "signed",
+	// names of the envelope and of the headered form, as content keys
+	"_room_version", "_event_id", "_", "event_id", "type", "sender", "room_id", "state_key", "unsigned", "hashes", "signatures", "content", "depth", "origin",
 }
 
 func evFakeID(t *rapid.T, version, label string) string {
